@@ -31,15 +31,13 @@ package reactor
 //@   local mySend int = 0
 //@   local stored int = 0
 //@   requires item != nil && item.parent == nil && G() && errs()
-//@   requires [fresh-id] !tracked(globalReactor.stateTable, item.id) // ownership: the caller inserts a seed that is not in flight
 //@   stable [own-ins] pendIns >= myIns && myIns >= 0
 //@   stable [own-send] pendSend >= mySend && mySend >= 0
-//@   stable [own-id] stored == 0 && globalReactor != nil ==> !tracked(globalReactor.stateTable, item.id)
 //@   after selsend(tokenPool)#1: pendIns = pendIns + 1; myIns = 1
-//@   after LoadOrStore(stateTable)#1: pendIns = pendIns - 1; myIns = 0; pendSend = pendSend + 1; mySend = 1; stored = 1
+//@   after LoadOrStore(stateTable)#1: pendIns = ite(opLoaded, pendIns, pendIns - 1); myIns = ite(opLoaded, myIns, 0); pendSend = ite(opLoaded, pendSend, pendSend + 1); mySend = ite(opLoaded, mySend, 1); stored = ite(opLoaded, stored, 1)
 //@   after send(input)#1: pendSend = pendSend - 1; mySend = 0
 //@   nonblock send(input)#1
-//@   ensures [accounted] myIns == 0 && mySend == 0 // C12: a token is taken exactly when a seed is accepted
+//@   ensures [accounted] @C12,C16 myIns == 0 && mySend == 0 // C12: a token is taken exactly when a seed is accepted (also for a seed id that is already in flight: the call does not return holding a token); C16: all tokens are free once the reactor tracks no seed
 //@   ensures [frozen] old(globalReactor != nil && frozen()) ==> result != nil // C12: once frozen or stopped the reactor accepts nothing further
 
 // ReceiveFeedback: the caller owns a seed that is out in the pipeline (myOut = 1) or feeds
